@@ -1108,8 +1108,8 @@ def main(ctx):
                                 "scipy.integrate.quad inside the validators: a parameter of the model (measured against exact integrals on every case)"]
     cov["remarks"] = ["_validate_inputs asserts type(scale) twice; loc is never type-checked (read from the source: type_checked above)",
                       "the validation uses `assert` (AssertionError, removed under python -O), not ValueError",
-                      "scale <= 0 / nan gives a nan denominator, `nan != 0` holds, the constructor accepts and the waveform is nan (outside the "
-                      "property's domain: no Gaussian) — see outside_domain_probes",
+                      "scale <= 0 / nan / inf and a non-finite loc are rejected since repair D27 (before: nan denominator, `nan != 0` held, the "
+                      "accepted object's waveform was nan) — accepted_edge_objects is the oracle, outside_domain_probes the record",
                       "a waveform that is negative only between the 10 sampled points, or a parametrisation that is wrong only between the "
                       "sampled points, is accepted (blind-spot families; Lean: literal_rejection_claim_false)"]
     cov["trusted_base"] += [
